@@ -3,5 +3,8 @@ CONSTANTS
   NW = 3
   K = 1
   PerThread = TRUE
+  Shape = "seedDraw"
 INVARIANT StreamIsolation
+INVARIANT NoClock
+INVARIANT SeedDrawStream
 CHECK_DEADLOCK FALSE
